@@ -134,6 +134,7 @@ class Stream:
             iri (str): namespace iri
 
         """
+        self.check_usable()
         rows = encode_namespace_declaration(
             name=name,
             value=iri,
